@@ -15,7 +15,7 @@ def make_eval(names, mseed: int, card3=None):
     if card3 in card:
         card[card3] = 3
     ft = FreeTables(names, card, mseed)
-    ev = Evaluator(card, lambda pop, do: ft.joint(pop, do), q_provider=ft.qfactor)
+    ev = Evaluator(card, lambda pop, do: ft.joint(pop, do), q_provider=ft.qfactor, cf_provider=ft.cf)
     return ev, card
 
 
